@@ -84,7 +84,10 @@ def item_token(it, stats=None):
     elif v[0] == "d":
         if it["type"] != T_NUMERIC or it["raw"] is None:
             return None
-        val = "n%s:%d" % (zs(it["raw"] + it["ref"]), it["scale"])
+        n = it["raw"] + it["ref"]
+        if it["scale"] < 0 and abs(n) * 10 ** (-it["scale"]) >= 2 ** 53:
+            return None         # outside libc_range: the value itself is not a double (2 02 YYY pushed the scale further down)
+        val = "n%s:%d" % (zs(n), it["scale"])
     elif v[0] in "il":
         z = int(v[1:])
         if it["type"] == T_FLAG:
@@ -196,7 +199,7 @@ def model_value_matches(mv, it):
     if v[0] == "s":
         return None if lv == v else "string %s, library has %s" % (v, lv)
     if v[0] == "d":
-        m, e = v[1:].split("e")
+        m, e = v[1:].split("^")
         x = float(Fraction(int(m, 0)) * Fraction(10) ** int(e, 0))          # correctly rounded: the strtod contract
         if lv == "dM":
             return "RANGE"          # set_dvalue refused the value (range check): classified by the caller
@@ -494,9 +497,9 @@ def run_harness(exe, lines, tmpdir):
     errs = [""] * len(lines)
     start = 0
     ncrash = 0
-    pre = [l for l in lines if l.startswith("TABLES")][:1]
     while start < len(lines) and ncrash < 40:
         chunk = lines[start:]
+        pre = [l for l in lines[:start] if l.startswith("TABLES")][-1:]      # the tables in force at the restart point
         feed = ([] if (start == 0 or not pre or chunk[0].startswith("TABLES")) else pre) + chunk
         skip = len(feed) - len(chunk)
         rc, out, err = vlib.run_cases(exe, "\n".join(feed) + "\n", timeout=3000, env={"VERIF_C13_TMP": tmpdir})
@@ -532,6 +535,209 @@ def detect_variant(exe, tmpdir):
     return "".join(v)
 
 
+DEDICATED = [
+    ("string_rbrace_after_meta", "E 0 0 4 3 101001 1015 12101 1 - 1 s41427d43442020202020202020202020207d2020 r6ab3 |"),
+    ("string_rbrace_after_meta", "E 1 0 4 3 101001 1015 12101 1 - 1 s41424344202020202020202020202020207d207d r6ab3 |"),
+    ("string_rbrace_after_meta", "E 1 0 4 4 101000 31001 1015 12101 1 - 1 r2 s7d7d7d7d7d7d7d7d7d7d7d7d7d7d7d7d7d7d7d7d s41424344202020202020202020202020202020 r6ab3 |"),
+    ("quoted_msng_string", "E 0 0 4 3 208004 1015 208000 1 - 1 s4d534e47 |"),
+    ("quoted_msng_string", "E 1 0 4 4 208004 1015 208000 12101 1 - 2 s4d534e47 r6ab3 | s41424344 r5 |"),
+    ("nested_delayed_replication", "E 0 0 4 5 103000 31001 101000 31001 12101 1 - 1 r1 r1 r6ab3 |"),
+    ("nested_delayed_replication", "E 0 0 4 5 103000 31001 101000 31001 12101 1 - 2 r2 r1 r6ab3 r0 | r0 |"),
+    ("negscale_range_end", "E 0 0 4 3 202127 14192 202000 1 - 1 r0 |"),
+    ("negscale_range_end", "E 0 0 4 1 2128 1 - 1 r3e |"),
+]
+# 2 03 YYY: through the API the encoder does not apply the new reference values (C09 finding api_encode_203), the loader and
+# the decoder do.  These datasets are therefore taken from DECODED messages only (second stage).
+T203 = [
+    "E 0 0 4 6 203012 12101 203255 12101 203000 12101 1 - 1 r864 r6ab3 r5 |",
+    "E 1 0 4 8 203016 12101 10004 203255 12101 10004 203000 12101 1 - 2 r8064 r10 r6ab3 r100 r5 | r64 r8010 r1 r2 r3 |",
+    "E 0 0 3 7 203008 7004 203255 101002 7004 203000 7004 1 - 1 r85 r10 r11 r12 |",
+]
+
+
+class Stage:
+    """one harness run + model run + evaluation over a list of cases"""
+    def __init__(self, rep, exe, drv, tmpdir, variant, known):
+        self.rep, self.exe, self.drv, self.tmpdir, self.variant, self.known = rep, exe, drv, tmpdir, variant, known
+        self.feat = collections.Counter()
+        self.nviol = 0
+        self.ntext = self.nload = self.nvals = 0
+        self.driver_failed = None
+
+    def run(self, cases, extra_lines=(), extra_model=()):
+        """cases: dict(line, feats, key, tables?).  -> (parsed records, harness outputs of extra_lines, model outputs of extra_model)"""
+        rep, variant, known, feat = self.rep, self.variant, self.known, self.feat
+        lines = []
+        cur_tables = None
+        for c in cases:
+            t = c.get("tables")
+            if t != cur_tables:
+                lines.append(t if t else "TABLES - -")
+                cur_tables = t
+            lines.append(c["line"])
+        outs, errs = run_harness(self.exe, lines + list(extra_lines), self.tmpdir)
+        keep = [i for i, l in enumerate(lines) if not l.startswith("TABLES")]
+        case_outs = [outs[i] for i in keep]
+        case_errs = [errs[i] for i in keep]
+        xouts = outs[len(lines):]
+        mreq, idx, parsed = [], [], []
+        for c, o in zip(cases, case_outs):
+            r = parse_out(o) if o else None
+            parsed.append(r)
+            di = li = None
+            if r and r["head"].get("rc") == "0" and r["msgs"]:
+                dq = dump_request(r["msgs"])
+                if dq:
+                    di = len(mreq); mreq.append(dq)
+                lq = load_request(variant, r["head"].get("h0", ""), r["msgs"], r["head"].get("text", ""))
+                if lq:
+                    li = len(mreq); mreq.append(lq)
+            idx.append((di, li))
+        nm = len(mreq)
+        mreq += list(extra_model)
+        rc2, mout, merr = vlib.sh("ulimit -s unlimited 2>/dev/null || ulimit -s 1000000; exec %s" % self.drv, input=("\n".join(mreq) + "\n").encode(), timeout=3000)
+        if rc2 != 0:
+            self.driver_failed = merr[-400:]
+        mout = mout.split("\n")
+        for ci, (c, r) in enumerate(zip(cases, parsed)):
+            if self.nviol > 12:
+                break
+            key = c.get("key", c["line"])
+            rep.count(key)
+            for ft in c["feats"]:
+                feat[ft] += 1
+            robj = {"kind": "dump", "case": c["line"], "tables": c.get("tables"), "variant": variant, "src": c.get("src")}
+            if r is None:
+                fk = next((f_[len("dedicated_"):] for f_ in c["feats"] if f_.startswith("dedicated_")), None)
+                if fk and fk in known:
+                    rep.finding("%s (%s)  [case: %s]" % (FINDINGS[fk], case_errs[ci][:160], key[:200]))
+                else:
+                    rep.violation("C13: the library crashed / was stopped by the sanitizer while dumping, loading or encoding: %s  [case: %s]" % (case_errs[ci], key[:300]),
+                                  dict(robj, stderr=case_errs[ci])); self.nviol += 1
+                continue
+            if r["head"].get("rc") != "0" or not r["msgs"]:
+                feat["not_built_rc" + r["head"].get("rc", "?")] += 1
+                if r["head"].get("rc") == "0":
+                    rep.violation("C13: the harness produced no dataset record: %s  [case: %s]" % (case_outs[ci][:200], key[:300]), robj, no_input=True); self.nviol += 1
+                continue
+            if ci % 131 == 0:
+                rep.sample({"case": key[:300], "text": bytes.fromhex(r["head"].get("text", ""))[-160:].decode("latin-1"), "a==b": [m.get("a") == m.get("b") for m in r["msgs"]]})
+            # datasets the library itself flags as invalid coding (BUFR_FLAG_INVALID, e.g. 2 07 YYY in an edition 3 message) are outside the property
+            if any((int(m["ohdr"].split(",")[16]) & 256) or (int(m.get("lrc", "0")) > 0 and int(m["hdr"].split(",")[16]) & 256) for m in r["msgs"]):
+                feat["flagged_invalid_by_library"] += 1
+                continue
+            fails = []
+            if not c.get("no_oracle"):
+                for i, m in enumerate(r["msgs"]):
+                    f = oracle_dataset(m, i, decoded=(r["head"]["cmd"] == "D"))
+                    if f == "S1LOCAL":
+                        feat["decoded_section1_local_octets_not_in_text"] += 1
+                        continue
+                    if f and "not a C13 matter" in f:
+                        feat["original_not_encodable"] += 1
+                        continue
+                    if f:
+                        fails.append((i, f))
+                if not fails:
+                    # the file holds exactly k datasets, and the utility's own path gives the same messages
+                    if r["end"].get("more") not in ("0",):
+                        fails.append((len(r["msgs"]), "after the %d datasets of the file a further bufr_read_dataset_dump returned %s" % (len(r["msgs"]), r["end"].get("more"))))
+                    else:
+                        g = r["head"].get("g", "-")
+                        want = "04".join(m["b"] for m in r["msgs"] if m.get("a", "-") != "-")
+                        if all(m.get("a", "-") != "-" for m in r["msgs"]) and g != want:
+                            fails.append((0, "bufr_genmsgs_from_dump wrote %d octets, the %d datasets encode to %d octets" % (len(g) // 2, len(r["msgs"]), len(want) // 2)))
+                        gl = int(r["head"].get("gl", "0"))
+                        if gl != len(r["msgs"][0]["O"]):
+                            fails.append((0, "bufr_load_dataset returned %d, the first dataset has %d subsets" % (gl, len(r["msgs"][0]["O"]))))
+            for i, f in fails[:1]:
+                fk = classify_failure(c, r["msgs"][min(i, len(r["msgs"]) - 1)], i)
+                if fk is None and i > 0:
+                    fk = next((classify_failure(c, m, j) for j, m in enumerate(r["msgs"][:i]) if classify_failure(c, m, j)), None)   # an earlier dataset broke the reading
+                if fk and fk in known:
+                    rep.finding("%s  [case: %s]" % (FINDINGS[fk], key[:240]))
+                    feat["finding_" + fk] += 1
+                else:
+                    rep.violation("C13: %s%s  [case: %s]" % (f, (" (class %s)" % fk) if fk else "", key[:400]), dict(robj, library=str(r["head"])[:300], dataset=i))
+                    self.nviol += 1
+            # -- correspondence: text
+            di, li = idx[ci]
+            if di is not None and di < len(mout):
+                self.ntext += 1
+                mt = mout[di].split()
+                if len(mt) < 2 or mt[1] != r["head"].get("text", ""):
+                    a = bytes.fromhex(r["head"].get("text", "")); b = bytes.fromhex(mt[1]) if len(mt) > 1 and mt[0] == "DUMP" else b""
+                    k = next((i for i in range(min(len(a), len(b))) if a[i] != b[i]), min(len(a), len(b)))
+                    la = a[:k].count(b"\n")
+                    ln_a = a.split(b"\n")[la] if la < len(a.split(b"\n")) else b""
+                    ln_b = b.split(b"\n")[la] if la < len(b.split(b"\n")) else b""
+                    rep.violation("C13: correspondence broken: the dump text differs from the model's printer (Dump.print_dataset) at line %d: library %r, model %r  [case: %s]"
+                                  % (la + 1, ln_a[:80], ln_b[:80], key[:240]),
+                                  dict(robj, correspondence="bufr_fdump_dataset vs Dump.print_dataset", model=mout[di][:300]), no_input=not fails)
+                    self.nviol += 1
+            else:
+                feat["text_not_modelled"] += 1
+            # -- correspondence: loader
+            if li is not None and li < len(mout):
+                self.nload += 1
+                bad = self.compare_load(mout[li], r)
+                if bad:
+                    rep.violation("C13: correspondence broken: bufr_read_dataset_dump vs the model's loader (Dump.load_file, variant %s): %s  [case: %s]" % (variant, bad, key[:240]),
+                                  dict(robj, correspondence="bufr_load_header/bufr_load_datasubsets vs Dump.load_file", model=mout[li][:400]), no_input=not fails)
+                    self.nviol += 1
+        return parsed, xouts, mout[nm:]
+
+    def compare_load(self, mline, r):
+        ml = parse_model_load(mline) if mline.startswith("LOAD") else None
+        lib_loaded = [m for m in r["msgs"] if int(m.get("lrc", "-9")) > 0]
+        if ml is None:
+            return "model output %r" % mline[:80]
+        if len(ml) != len(lib_loaded):
+            return "the library loaded %d datasets, the model %d" % (len(lib_loaded), len(ml))
+        for i, (m, (mh, msubs)) in enumerate(zip(lib_loaded, ml)):
+            if mh != m["hdr"]:
+                return "dataset %d header %s, model %s" % (i + 1, m["hdr"], mh)
+            if len(msubs) != len(m["L"]):
+                return "dataset %d: %d subsets, model %d" % (i + 1, len(m["L"]), len(msubs))
+            for s, ((vals, nrest), sl) in enumerate(zip(msubs, m["L"])):
+                tgt = [it for j, it in enumerate(sl) if not load_skipped(it, sl[j + 1] if j + 1 < len(sl) else None)]
+                if len(vals) > len(tgt):
+                    return "dataset %d subset %d: model consumed %d value lines, library has %d nodes" % (i + 1, s + 1, len(vals), len(tgt))
+                for mv, it in zip(vals, tgt):
+                    self.nvals += 1
+                    w = model_value_matches(mv, it)
+                    if w == "RANGE":
+                        if it["scale"] < 0 and "negscale_range_end" in self.known:
+                            self.feat["range_refused_negscale"] += 1
+                            continue
+                        w = "the library refused the value %s it had written itself (range check) for %06d" % (mv, it["desc"])
+                    if w:
+                        return "dataset %d subset %d %06d: %s" % (i + 1, s + 1, it["desc"], w)
+        return None
+
+
+def second_stage_cases(cases, parsed, tmpdir, every):
+    """the library's own messages, decoded: decoded datasets carry a {R=..}/{} comment in front of most values and have
+    2 03 YYY applied.  The messages of a case go into one file (k datasets of one template)."""
+    out = []
+    for ci, (c, r) in enumerate(zip(cases, parsed)):
+        if not r or r["head"].get("cmd") != "E" or r["head"].get("rc") != "0" or not r["msgs"]:
+            continue
+        is203 = "t203" in c["feats"]
+        if not (is203 or ci % every == 0):
+            continue
+        which = "b" if is203 else "a"
+        if any(m.get(which, "-") == "-" for m in r["msgs"]):
+            continue
+        path = os.path.join(tmpdir, "s2_%d.bufr" % ci)
+        with open(path, "wb") as f:
+            for m in r["msgs"]:
+                f.write(bytes.fromhex(m[which]))
+        out.append(dict(line="D %s -1 %s 0 %d" % (r["head"].get("trim", "0"), path, len(r["msgs"])), key="D2 " + c["line"], src=c["line"],
+                        feats={"decoded_own_message"} | ({"decoded_203"} if is203 else set()) | {f for f in c["feats"] if f.startswith(("op2", "delayed", "nested", "str_", "assoc"))}))
+    return out
+
+
 def run(rep, tier, seed, replay=None):
     proved = vlib.proof_step(rep, "Properties_C13")
     exe = vlib.build_harness("c13", replace=[("bufr_dataset", "wrap_dataset.c")], wrap=["exit"])
@@ -541,204 +747,49 @@ def run(rep, tier, seed, replay=None):
     ctx = Ctx()
     known = {f.get("match"): f for f in vlib.known_findings("C13")}
     variant = detect_variant(exe, tmpdir)
-    # ---- cases
-    if replay and replay.get("case"):
-        cases = [dict(line=replay["case"], feats=set(), case=None)]
-        pre = [replay["tables"]] if replay.get("tables") else []
-        contract, binary = [], []
+    st = Stage(rep, exe, drv, tmpdir, variant, known)
+    contract, binary, ncorp = [], [], 0
+    if replay and (replay.get("case") or replay.get("src")):
+        src = replay.get("src")
+        cases = [dict(line=src or replay["case"], feats={"t203"} if src and " 203" in src else set(), tables=replay.get("tables"), no_oracle=bool(src))]
+        every = 1
     else:
         # classes whose finding is open AND that this tree still shows are kept out of the random mix (they can crash the
-        # harness) and exercised by dedicated cases below; once fixed they are part of the mix
+        # harness) and exercised by dedicated cases; once fixed they are part of the mix
         avoid = set()
         if variant[0] == "0" and "string_rbrace_after_meta" in known:
             avoid.add("string_rbrace_after_meta")
         cases = gen_cases(rng, ctx, tier, avoid)
-        dedicated = [
-            ("string_rbrace_after_meta", "E 0 0 4 3 101001 1015 12101 1 - 1 s41427d43442020202020202020202020207d2020 r6ab3 |"),
-            ("string_rbrace_after_meta", "E 1 0 4 3 101001 1015 12101 1 - 1 s41424344202020202020202020202020207d207d r6ab3 |"),
-            ("string_rbrace_after_meta", "E 1 0 4 4 101000 31001 1015 12101 1 - 1 r2 s7d7d7d7d7d7d7d7d7d7d7d7d7d7d7d7d7d7d7d7d s41424344202020202020202020202020202020 r6ab3 |"),
-            ("quoted_msng_string", "E 0 0 4 3 208004 1015 208000 1 - 1 s4d534e47 |"),
-            ("quoted_msng_string", "E 1 0 4 4 208004 1015 208000 12101 1 - 2 s4d534e47 r6ab3 | s41424344 r5 |"),
-            ("nested_delayed_replication", "E 0 0 4 5 103000 31001 101000 31001 12101 1 - 1 r1 r1 r6ab3 |"),
-            ("nested_delayed_replication", "E 0 0 4 5 103000 31001 101000 31001 12101 1 - 2 r2 r1 r6ab3 r0 | r0 |"),
-            ("negscale_range_end", "E 0 0 4 3 202127 14192 202000 1 - 1 r0 |"),
-            ("negscale_range_end", "E 0 0 4 1 2128 1 - 1 r3e |"),
-        ]
-        for key, line in dedicated:
-            cases.append(dict(line=line, feats={"dedicated_" + key}, case=None))
-        pre = []
-        contract = contract_cases(rng, tier)
-        binary = binary_cases(rng)
-    lines = pre + [c["line"] for c in cases]
-    ncorp = 0
-    if not replay:
+        for key, line in DEDICATED:
+            cases.append(dict(line=line, feats={"dedicated_" + key}))
+        for line in T203:
+            cases.append(dict(line=line, feats={"t203"}, no_oracle=True))
+        lb, ld = os.path.join(vlib.REPO, "Test", "local_table_b"), os.path.join(vlib.REPO, "Test", "local_table_d")
         corp = corpus_lines(tier)
         ncorp = len(corp)
-        lb, ld = os.path.join(vlib.REPO, "Test", "local_table_b"), os.path.join(vlib.REPO, "Test", "local_table_d")
-        lines += ["TABLES %s %s" % (lb, ld)] + corp
         for cl in corp:
-            cases.append(dict(line=cl, feats={"corpus"}, case=None, tables="TABLES %s %s" % (lb, ld)))
-    # ---- contract probes
-    plines = []
+            cases.append(dict(line=cl, feats={"corpus"}, tables="TABLES %s %s" % (lb, ld)))
+        contract = contract_cases(rng, tier)
+        binary = binary_cases(rng)
+        every = 3
+    plines, preq = [], []
     for n, s in contract:
         x = float(Fraction(n) / Fraction(10) ** s)
-        plines.append("P %016x %d" % (dbl_bits(x), s))
+        plines.append("P %016x %d" % (dbl_bits(x), s)); preq.append("PS %s %d" % (zs(n), s))
     for w, v in binary:
-        plines.append("B %d %x" % (w, v))
-    outs, errs = run_harness(exe, lines + plines, tmpdir)
-    case_outs = [o for l, o in zip(lines, outs) if not l.startswith("TABLES")][:len(cases)]
-    case_errs = [e for l, e in zip(lines, errs) if not l.startswith("TABLES")][:len(cases)]
-    pouts = outs[len(lines):]
-    # ---- model requests
-    mreq = []
-    idx = []      # per case: (dump request index | None, load request index | None)
-    parsed = []
-    for c, o in zip(cases, case_outs):
-        r = parse_out(o) if o else None
-        parsed.append(r)
-        di = li = None
-        if r and r["head"].get("rc") == "0" and r["msgs"]:
-            dq = dump_request(r["msgs"])
-            if dq:
-                di = len(mreq); mreq.append(dq)
-            lq = load_request(variant, r["head"].get("h0", ""), r["msgs"], r["head"].get("text", ""))
-            if lq:
-                li = len(mreq); mreq.append(lq)
-        idx.append((di, li))
-    nm = len(mreq)
-    for n, s in contract:
-        mreq.append("PS %s %d" % (zs(n), s))
-    for w, v in binary:
-        mreq.append("PB %d %s" % (w, zs(v)))
-    rc2, mout, merr = vlib.sh("ulimit -s unlimited 2>/dev/null || ulimit -s 1000000; exec %s" % drv, input=("\n".join(mreq) + "\n").encode(), timeout=3000)
-    mout = mout.split("\n")
-    # ---- evaluation
-    feat = collections.Counter()
-    nviol = 0
-    ntext = nload = nvals = 0
-    for ci, (c, r) in enumerate(zip(cases, parsed)):
-        key = c["line"]
-        rep.count(key)
-        for ft in c["feats"]:
-            feat[ft] += 1
-        robj = {"kind": "dump", "case": key, "tables": c.get("tables"), "variant": variant}
-        if r is None:
-            # the harness died on this case
-            fk = next((f_[len("dedicated_"):] for f_ in c["feats"] if f_.startswith("dedicated_")), None)
-            what = "C13: the library crashed / was stopped by the sanitizer while dumping, loading or encoding: %s  [case: %s]" % (case_errs[ci], key[:300])
-            if fk and fk in known:
-                rep.finding("%s (%s)  [case: %s]" % (FINDINGS[fk], case_errs[ci][:160], key[:200]))
-            else:
-                rep.violation(what, dict(robj, stderr=case_errs[ci])); nviol += 1
-            continue
-        if r["head"].get("rc") != "0" or not r["msgs"]:
-            feat["not_built_rc" + r["head"].get("rc", "?")] += 1
-            if r["head"].get("rc") == "0":
-                rep.violation("C13: the harness produced no dataset record: %s  [case: %s]" % (case_outs[ci][:200], key[:300]), robj, no_input=True); nviol += 1
-            continue
-        if ci % 131 == 0:
-            rep.sample({"case": key[:300], "text": bytes.fromhex(r["head"].get("text", ""))[-160:].decode("latin-1"), "a==b": [m.get("a") == m.get("b") for m in r["msgs"]]})
-        # -- datasets the library itself flags as invalid coding (BUFR_FLAG_INVALID, e.g. 2 07 YYY in an edition 3 message) are outside the property
-        if any((int(m["ohdr"].split(",")[16]) & 256) or (int(m.get("lrc", "0")) > 0 and int(m["hdr"].split(",")[16]) & 256) for m in r["msgs"]):
-            feat["flagged_invalid_by_library"] += 1
-            continue
-        # -- oracle
-        fails = []
-        for i, m in enumerate(r["msgs"]):
-            f = oracle_dataset(m, i, decoded=(r["head"]["cmd"] == "D"))
-            if f == "S1LOCAL":
-                feat["decoded_section1_local_octets_not_in_text"] += 1
-                continue
-            if f and "not a C13 matter" in f:
-                feat["original_not_encodable"] += 1
-                continue
-            if f:
-                fails.append((i, f))
-        if not fails:
-            # the file holds exactly k datasets, and the utility's own path gives the same messages
-            if r["end"].get("more") not in ("0",):
-                fails.append((len(r["msgs"]), "after the %d datasets of the file a further bufr_read_dataset_dump returned %s" % (len(r["msgs"]), r["end"].get("more"))))
-            else:
-                g = r["head"].get("g", "-")
-                want = "04".join(m["b"] for m in r["msgs"] if m.get("a", "-") != "-")
-                if all(m.get("a", "-") != "-" for m in r["msgs"]) and g != want:
-                    fails.append((0, "bufr_genmsgs_from_dump wrote %d octets, the %d datasets encode to %d octets" % (len(g) // 2, len(r["msgs"]), len(want) // 2)))
-                gl = int(r["head"].get("gl", "0"))
-                if gl != len(r["msgs"][0]["O"]):
-                    fails.append((0, "bufr_load_dataset returned %d, the first dataset has %d subsets" % (gl, len(r["msgs"][0]["O"]))))
-        handled = False
-        for i, f in fails:
-            fk = classify_failure(c, r["msgs"][min(i, len(r["msgs"]) - 1)], i)
-            if fk is None and i > 0:
-                fk = next((classify_failure(c, m, j) for j, m in enumerate(r["msgs"][:i]) if classify_failure(c, m, j)), None)   # an earlier dataset broke the reading
-            if fk and fk in known:
-                rep.finding("%s  [case: %s]" % (FINDINGS[fk], key[:240]))
-                feat["finding_" + fk] += 1
-            else:
-                rep.violation("C13: %s%s  [case: %s]" % (f, (" (class %s)" % fk) if fk else "", key[:400]), dict(robj, library=str(r["head"])[:300], dataset=i))
-                nviol += 1
-            handled = True
-            break
-        # -- correspondence: text
-        di, li = idx[ci]
-        if di is not None and di < len(mout):
-            ntext += 1
-            mt = mout[di].split()
-            if len(mt) < 2 or mt[1] != r["head"].get("text", ""):
-                a = bytes.fromhex(r["head"].get("text", "")); b = bytes.fromhex(mt[1]) if len(mt) > 1 and mt[0] == "DUMP" else b""
-                k = next((i for i in range(min(len(a), len(b))) if a[i] != b[i]), min(len(a), len(b)))
-                la = a[:k].count(b"\n")
-                ln_a = a.split(b"\n")[la] if la < len(a.split(b"\n")) else b""
-                ln_b = b.split(b"\n")[la] if la < len(b.split(b"\n")) else b""
-                rep.violation("C13: correspondence broken: the dump text differs from the model's printer (Dump.print_dataset) at line %d: library %r, model %r  [case: %s]"
-                              % (la + 1, ln_a[:80], ln_b[:80], key[:240]),
-                              dict(robj, correspondence="bufr_fdump_dataset vs Dump.print_dataset", model=mout[di][:300]), no_input=not handled and not fails)
-                nviol += 1
-        else:
-            feat["text_not_modelled"] += 1
-        # -- correspondence: loader
-        if li is not None and li < len(mout):
-            nload += 1
-            ml = parse_model_load(mout[li]) if mout[li].startswith("LOAD") else None
-            lib_loaded = [m for m in r["msgs"] if int(m.get("lrc", "-9")) > 0]
-            bad = None
-            if ml is None:
-                bad = "model output %r" % mout[li][:80]
-            elif len(ml) != len(lib_loaded):
-                bad = "the library loaded %d datasets, the model %d" % (len(lib_loaded), len(ml))
-            else:
-                for i, (m, (mh, msubs)) in enumerate(zip(lib_loaded, ml)):
-                    if mh != m["hdr"]:
-                        bad = "dataset %d header %s, model %s" % (i + 1, m["hdr"], mh); break
-                    if len(msubs) != len(m["L"]):
-                        bad = "dataset %d: %d subsets, model %d" % (i + 1, len(m["L"]), len(msubs)); break
-                    for s, ((vals, nrest), sl) in enumerate(zip(msubs, m["L"])):
-                        tgt = [it for j, it in enumerate(sl) if not load_skipped(it, sl[j + 1] if j + 1 < len(sl) else None)]
-                        if len(vals) > len(tgt):
-                            bad = "dataset %d subset %d: model consumed %d value lines, library has %d nodes" % (i + 1, s + 1, len(vals), len(tgt)); break
-                        for mv, it in zip(vals, tgt):
-                            nvals += 1
-                            w = model_value_matches(mv, it)
-                            if w == "RANGE":
-                                if it["scale"] < 0 and "negscale_range_end" in known:
-                                    feat["range_refused_negscale"] += 1
-                                    continue
-                                w = "the library refused the value %s it had written itself (range check) for %06d" % (mv, it["desc"])
-                            if w:
-                                bad = "dataset %d subset %d %06d: %s" % (i + 1, s + 1, it["desc"], w); break
-                        if bad: break
-                    if bad: break
-            if bad:
-                rep.violation("C13: correspondence broken: bufr_read_dataset_dump vs the model's loader (Dump.load_file, variant %s): %s  [case: %s]" % (variant, bad, key[:240]),
-                              dict(robj, correspondence="bufr_load_header/bufr_load_datasubsets vs Dump.load_file", model=mout[li][:400]), no_input=not fails)
-                nviol += 1
-        if nviol > 12:
-            break
+        plines.append("B %d %x" % (w, v)); preq.append("PB %d %s" % (w, zs(v)))
+    parsed, pouts, pm = st.run(cases, plines, preq)
+    # ---- second stage: the library's own messages decoded, dumped, loaded
+    s2 = second_stage_cases(cases, parsed, tmpdir, every)
+    if s2 and st.nviol <= 12:
+        st.run(s2)
+    nviol = st.nviol
+    feat = st.feat
     # ---- printf/strtod contract, binary
     ncontract = 0
     for j, (n, s) in enumerate(contract):
         po = pouts[j] if j < len(pouts) and pouts[j] else ""
-        mo = mout[nm + j] if nm + j < len(mout) else ""
+        mo = pm[j] if j < len(pm) else ""
         rep.count(("P", n, s))
         pt, mt = po.split(), mo.split()
         x = float(Fraction(n) / Fraction(10) ** s)
@@ -760,7 +811,7 @@ def run(rep, tier, seed, replay=None):
     nbin = 0
     for j, (w, v) in enumerate(binary):
         po = pouts[len(contract) + j] if len(contract) + j < len(pouts) and pouts[len(contract) + j] else ""
-        mo = mout[nm + len(contract) + j] if nm + len(contract) + j < len(mout) else ""
+        mo = pm[len(contract) + j] if len(contract) + j < len(pm) else ""
         rep.count(("B", w, v))
         nbin += 1
         pt, mt = po.split(), mo.split()
@@ -777,21 +828,23 @@ def run(rep, tier, seed, replay=None):
             rep.violation("C13: correspondence broken: bufr_print_binary/bufr_binary_to_int (%s) vs Dump.print_binary/binary_to_int (%s) for w=%d v=%x" % (po, mo, w, v),
                           {"kind": "binary", "correspondence": "print_binary/binary_to_int", "w": w, "v": v}, no_input=True); nviol += 1
         if nviol > 16: break
-    if rc2 != 0 and not rep.violations:
-        rep.violation("C13: the model driver failed: %s" % merr[-400:], {"kind": "driver"}, no_input=True)
+    if st.driver_failed and not rep.violations:
+        rep.violation("C13: the model driver failed: %s" % st.driver_failed, {"kind": "driver"}, no_input=True)
     if not proved and not rep.violations:
         rep.violation("C13: proof obligations no longer check and the correspondence run found no failing input", getattr(rep, "proof_broken", {}), no_input=True)
-    rep.cov["traces_validated_against_impl"] = ntext + nload + ncontract + nbin
+    rep.cov["traces_validated_against_impl"] = st.ntext + st.nload + ncontract + nbin
     rep.cov["rule"] = ("datasets of the C01/C02 grammar (elements, Table D, fixed and delayed replication incl. zero counts and nesting, 2 01/2 02/2 04/2 05/2 06/2 07/2 08, editions 2-4) "
                        "+ a fine-precision family (Table B scale >= 5 or < 0 or width >= 25 under 2 01/2 02/2 07, raw values at both ends, middle, random), strings with leading/embedded/trailing "
                        "blanks, quotes, braces, parentheses, '#', '=', tabs, octets >= 128, missing; associated fields; Section 1 varied per edition; 1..5 datasets per file; trim-zero on/off; "
-                       "compressed and plain; + every message of /repo/Test/BUFR and /repo/Test/Dump decoded with the local tables; + printf/strtod contract grid (scale -8..15 x widths x references) "
-                       "+ bufr_print_binary/bufr_binary_to_int for every width 1..64.  distinct = distinct case lines; non-trivial = the dataset was built and dumped")
-    rep.cov["distribution"] = dict(feat, variant=variant, dump_texts_compared=ntext, load_results_compared=nload, loaded_values_compared=nvals,
-                                   contract_points=ncontract, binary_points=nbin, corpus_files=ncorp)
+                       "compressed and plain; + every third generated message decoded again (second stage: {..} comments, 2 03 YYY applied) + every message of /repo/Test/BUFR and /repo/Test/Dump "
+                       "decoded with the local tables; + printf/strtod contract grid (scale -8..15 x widths x references) + bufr_print_binary/bufr_binary_to_int for every width 1..64.  "
+                       "distinct = distinct case lines; non-trivial = the dataset was built and dumped")
+    rep.cov["distribution"] = dict(feat, variant=variant, dump_texts_compared=st.ntext, load_results_compared=st.nload, loaded_values_compared=st.nvals,
+                                   contract_points=ncontract, binary_points=nbin, corpus_files=ncorp, second_stage_cases=len(s2))
     rep.assumptions = ["numeric quantisation double -> raw (bufr_cvt_dval_to_i64) is C08's; expansion of the descriptor list / Table C operators is C09/C10's: the model's loader receives the "
                        "descriptor list of each subset (descriptor, skipped-when-reached, storage type) from the library's own listing",
-                       "glibc printf/strtod: decimal contract stated as Section hypotheses in DumpProof.v and tested on the contract grid and on every generated value"]
+                       "glibc printf/strtod: decimal contract stated as hypotheses of C13_numeric_roundtrip_libc and tested on the contract grid and on every generated value",
+                       "Section 1 octets reserved for local use (decoded messages) have no key in the text form: messages are compared without them"]
 
 
 def format_decimal(n, s):
